@@ -36,17 +36,27 @@ ASSUMPTIONS = [
     '--enable-proxy-protocol off',
     'requests of one connection are strictly sequential (a follow-up is sent after the previous response was relayed); '
     'several requests in one segment are C04\'s known finding',
-    '--disable-headers does not name via, content-length, transfer-encoding (the operator would remove framing)',
-    'a segment is one non-empty recv() result not larger than the client receive buffer',
+    'CfgOk: --disable-headers does not name via, content-length, transfer-encoding (the operator would remove '
+    'framing / the Via the property demands); the re-chunking size is positive',
+    'a segment is one non-empty recv() result not larger than the client receive buffer; the schedule respects '
+    'get_events() (a handler that stopped reading its client is not handed further segments) and the upstream '
+    'socket is writable at once',
+    'theorems: scheme http, host = reg-name / IPv4 literal in visible ASCII (IPv6 literals, userinfo: C14), '
+    'field names are tokens with case-insensitively unique names, values without CR/LF/control bytes, '
+    'Content-Length = 1*DIGIT that int() reads as the body length, chunk sizes 1*HEXDIG, no trailer part (D22), '
+    'body length below 10^4300 (CPython int-max-str-digits, LenReadable); the oracle additionally runs IPv6-free '
+    'requests with non-ASCII path bytes',
     'h11 (oracle) rejects non-ASCII request targets and HTTP/1.1 requests without Host: such requests are judged '
     'by a minimal RFC 7230 reader written for the oracle instead (recorded in the histogram as reader=rfc); the same '
     'reader judges forwarded messages h11 calls "conflicting Content-Length" because the two spellings differ '
     '(001 and 1): RFC 7230 3.3.2 speaks of the same decimal value',
+    'semEq counts equal-valued repetitions of Content-Length once: a client field spelled other than '
+    '"Content-Length" is forwarded next to the builder\'s own (C02_content_length_repeated)',
 ]
 EXHAUSTIVE = {}
-EXPLANATION = ('theorems quantify over all well-formed requests and all segmentations (the latter through the C03 '
-               'segmentation theorem, taken as a named hypothesis until it is discharged); the runs tie the model '
-               'to the code on generated connections')
+EXPLANATION = ('theorems quantify over all well-formed requests and all segmentations (through the C03 segmentation '
+               'theorem, the C15 codec lemmas and the C14 target lemmas, all imported, none assumed); the runs tie '
+               'the model to the code on generated connections')
 
 logging.disable(logging.CRITICAL)
 
@@ -703,6 +713,10 @@ def corpus():
     for i in range(1, n):
         cs.append(_conn([dict(msg, cuts=[i])]))
     cs.append(_conn([dict(msg, cuts='bytes'), dict(msg, cuts='bytes')]))
+    # past harness failure: the parse error is raised by a middle segment (400 queued, client no longer read)
+    raw = b'GET http://h/ HTTP/1.1\r\nContent-Length: x\r\n\r\n'
+    cs.append(_conn([{'raw': raw.hex(), 'cuts': [24, 43]}]))
+    cs.append(_conn([{'raw': raw.hex(), 'cuts': [16, 43]}]))
     for raw in BAD_RAW + ODD_RAW:
         cs.append(_conn([{'raw': raw.hex(), 'cuts': []}]))
         cs.append(_conn([{'raw': raw.hex(), 'cuts': [len(raw) // 2]}]))
